@@ -26,15 +26,15 @@ reg("C02", "rules_arith", "check_C02", "proof",
     COMMON_ASSUME + ["exactness theorems for 2Sum/Fast2Sum/2Prod-FMA absent over/underflow; Alg. 15 bound taken from the literature once conformance holds"])
 reg("C03", "rules_arith", "check_C03", "proof",
     "instances = the six reference/reference add/sub bodies, four compound-assignment bodies, every by-value/mixed spelling, Sum::sum; distinct by impl",
-    "S-rules R6 (conformance of +,- to Alg. 4 / Alg. 6 at IEEE-operation level), R13/R14 (every spelling and compound assignment has the identical normal form), R7 (Sum is fold(0, +)). The error bounds are the theorems' once conformance holds.",
+    "S-rules R6 (conformance of +,- to Alg. 4 / Alg. 6 at IEEE-operation level), R13/R14 (every spelling and compound assignment has the identical normal form), R7 (Sum is fold(0, +)); R6x (S, rewriting): a + (-a) and a - a are exactly zero. The error bounds are the theorems' once conformance holds.",
     COMMON_ASSUME + ["Joldes-Muller-Popescu 2017 Alg. 4 (2u^2) and Alg. 6 (3u^2+13u^3) bounds under the property's range restrictions"])
 reg("C04", "rules_arith", "check_C04", "proof",
     "instances = the three reference/reference mul bodies, two compound-assignment bodies, every spelling; distinct by impl",
-    "S-rule R8: conformance of x to Alg. 9 (DWTimesFP3) / Alg. 12 (DWTimesDW3) with FMA nodes distinguished from mul+add; R13/R14 spellings; R5 fma provider.",
+    "S-rule R8: conformance of x to Alg. 9 (DWTimesFP3) / Alg. 12 (DWTimesDW3) with FMA nodes distinguished from mul+add; R13/R14 spellings; R5 fma provider; R8x (S, rewriting with the exact identities for 0 and +-1 and the operand's validity): a zero factor gives exactly zero, multiplying by +-1 is exact (TwoFloat and f64 factors, either side).",
     COMMON_ASSUME + ["JMP 2017 Alg. 9 (2u^2), Alg. 12 (5u^2) bounds"])
 reg("C05", "rules_arith", "check_C05", "other",
     "instances = DWDivFP3 bodies, the three long-division bodies, recip, every spelling; distinct by impl",
-    "R9 (S): TwoFloat/f64 conforms to Alg. 15 => 3u^2. R10 (X): the three copies of the long division have the qd accurate_div skeleton q1,q2,q3 -> renorm3 and agree. R11 (S): recip is 1.0/self. The 16*2^-106 bound of the long division itself is NOT decided (no theorem, no static error analyser available).",
+    "R9 (S): TwoFloat/f64 conforms to Alg. 15 => 3u^2. R10 (X): the three copies of the long division have the qd accurate_div skeleton q1,q2,q3 -> renorm3 and agree. R11 (S): recip is 1.0/self. R9x (S, rewriting): a zero numerator gives zero, dividing by +-1 is exact, a / a == 1 exactly. The 16*2^-106 bound of the long division itself is NOT decided (no theorem, no static error analyser available).",
     COMMON_ASSUME + ["JMP 2017 Alg. 15 bound; the long-division accuracy is not decided"])
 reg("C19", "rules_arith", "check_C19", "other",
     "instances = the three rem bodies and every spelling, %=, div_euclid and rem_euclid decision trees",
